@@ -35,7 +35,7 @@ def obligations(tier, seed):
            desc="parse_8_30/parse_bsd with packets 8/30 format 1 from a reference encoder over histories of K receptions of two arbitrary CNIs: NETWORK_ID at the second "
                 "consecutive identical reception only, NETWORK + cache drop exactly on station change, LOCAL_TIME event for every packet with exactly the transmitted MJD/UTC/offset",
            encodes=["parse_8_30", "parse_bsd", "unham_page_link", "vbi_decode_teletext_8301_local_time", "station_lookup"],
-           bounds="K receptions (3 quick, 5 thorough)", grid=[dict(KREC=kt, C13_LT_MODEL=1, EVMAX=12)], quick_grid=[dict(KREC=kq, C13_LT_MODEL=1)],   # K=5: up to 9 events (5 LOCAL_TIME + 2 x NETWORK/NETWORK_ID), the log holds 8 by default
+           bounds="K receptions (4 quick, 5 thorough)", grid=[dict(KREC=kt, C13_LT_MODEL=1, EVMAX=12)], quick_grid=[dict(KREC=4, C13_LT_MODEL=1)],   # K=4: the shortest history with a station change (A A B B); K=5: up to 9 events (5 LOCAL_TIME + 2 x NETWORK/NETWORK_ID), the log holds 8 by default
            assumes=["CNI != 0", "C13_LT_MODEL: vbi_decode_teletext_8301_local_time replaced inside this translation unit by a model returning arbitrary logged values "
                     "(assume-guarantee with C12 p8301_*, which decides the codec over its full ranges); the event must carry exactly those values"],
            reach=["end", "announced"], timeout=900, mem_gb=6, **H),
